@@ -615,6 +615,7 @@ Proof.
     intros Ha Hob. eapply shows_le; [| |apply J; [exact Ha|exact Hob]]; [reflexivity|exact Hle]. }
   specialize (H1 Hpre1). unfold upd_inst, modify in H1. cbv beta iota in H1.
   set (s1 := with_heap s Par (set_nth o (i_with_vals (get_inst s Par o) vals') (heap (cn s Par)))) in *.
+  destruct (i_expired (get_inst s Par o)); [cbn [snd]; split; [exact H1|exact Ht]|].
   (* then the flag is set: nothing is cached any more *)
   assert (Hnv : forallb (fun v : option val => match v with None => true | Some _ => false end) vals' = true)
     by (apply forallb_none_map).
@@ -1042,6 +1043,7 @@ Proof.
   assert (E1 : exp_ok s1).
   { intros o'. rewrite G1. destruct (Nat.eqb o' o && Nat.ltb o (length (heap (cn s Par)))); [|apply He].
     intros _. unfold no_vals, vals'. cbn [i_vals i_with_vals]. apply forallb_none_map. }
+  destruct (i_expired (get_inst s Par o)); [exact E1|].
   assert (Hnv : forallb (fun v : option val => match v with None => true | Some _ => false end) vals' = true)
     by (apply forallb_none_map).
   set (s2 := with_heap s1 Par (set_nth o (i_with_expired (get_inst s1 Par o) true) (heap (cn s1 Par)))).
